@@ -276,6 +276,7 @@ def collect_real_part(proc, timeout=240):
 REAL_WHAT = {
     'a': 'close() must end the session: server process exits, the client then works again with exactly one new server',
     'b': 'the server must exit on its own when the client end of the connection disappears',
+    'd': 'after close() the client must be served by a NEW server (own listener address) even while the previous server process is still shutting down or stopped',
     'c': 'a failed launch must raise the documented timeout exception, leave the client usable and a later call must start exactly one server',
 }
 
@@ -419,7 +420,7 @@ def run(ctx):
     if real is None:
         ctx.violation('real-subprocess part failed to run: ' + str(real_err), {'kind': 'real', 'error': real_err}, found_input=False)
     else:
-        for part in ('a', 'b', 'c'):
+        for part in ('a', 'b', 'c', 'd'):
             ctx.count(('real', part), nontrivial=True)
             if not real.get(part, {}).get('ok'):
                 ctx.violation('real server process: ' + REAL_WHAT[part] + ' - observed ' + json.dumps(real.get(part))[:300],
@@ -450,6 +451,6 @@ def replay(ctx, obj):
     if kind == 'real':
         real, err = collect_real_part(start_real_part())
         print(json.dumps(real, indent=1) if real else err)
-        return 0 if real and all(real.get(p, {}).get('ok') for p in 'abc') else 1
+        return 0 if real and all(real.get(p, {}).get('ok') for p in 'abcd') else 1
     print(obj.get('what'))
     return 1
